@@ -94,6 +94,16 @@ SPECS = [
          expect_error={'class': 'TranslationError', 'token': 'rcontext'}, serves=['C05', 'C11']),
     dict(id='S-Repeat-tuple-reserved', text='A<i tal:repeat="(a, econtext, b) e1">x</i>B',
          expect_error={'class': 'TranslationError', 'token': 'econtext'}, serves=['C05', 'C11']),
+    # the clauses of a statement are parts of the source: an error in a LATER clause is reported at its
+    # own position also when an earlier clause contains an escaped semicolon (';;')
+    dict(id='S-Define-reserved-after-escape', text='A<i tal:define="a \'x;;y\'; __x e1">x</i>B',
+         expect_error={'class': 'TranslationError', 'token': '__x'}, serves=['C11']),
+    dict(id='S-Attributes-invalid-after-escape', text='A<i tal:attributes="a \'x;;;;y\'; b 1 +">x</i>B',
+         expect_error={'class': 'ExpressionError', 'token': '1 +'}, serves=['C11']),
+    # ... or a character reference (statement values are decoded as a whole before they are parsed,
+    # which moves everything behind the reference: known finding D26)
+    dict(id='S-Define-reserved-after-entity', text='A<i tal:define="a \'x&amp;y\'; __x e1">x</i>B',
+         expect_error={'class': 'TranslationError', 'token': '__x'}, serves=['C11']),
     dict(id='S-OnError-Define',
          text='A<div tal:on-error="e11"><p tal:define="a e1">%s</p></div>B' % H1,
          own_names=['a', 'error'],
